@@ -71,6 +71,8 @@ def variants(client):
         add("info-es", "info", [(b":status", b"103")], es=True)
         add("trailers", "trailers", [(b"x-t", b"1")], es=True)
         add("trailers-noes", "trailers", [(b"x-t", b"1")])
+    # trailers with no field at all: the block still owes the peer the table-size update that a HEADER_TABLE_SIZE change calls for
+    V["trailers-empty"] = ("trailers", [], True, {})
     return V
 
 
